@@ -2,10 +2,17 @@
   Helper lemmas for C10: `List.mapM` in `Except`, the `collect` loop, `pyInt`, small `Rat` facts.
 -/
 import SoundeventModel.Crowsetta
-deriving instance DecidableEq for Except
-
 namespace SE.Proofs.Lemmas.Crowsetta
 open SE SE.Crowsetta
+
+/-- decidable equality of results (for the `decide` examples); defined under this namespace so that
+    it cannot clash with an instance another property's lemma file may declare -/
+instance exceptDecEq {ε α} [DecidableEq ε] [DecidableEq α] : DecidableEq (Except ε α) := fun a b =>
+  match a, b with
+  | .ok x, .ok y => if h : x = y then isTrue (by rw [h]) else isFalse (fun h' => h (by cases h'; rfl))
+  | .error x, .error y => if h : x = y then isTrue (by rw [h]) else isFalse (fun h' => h (by cases h'; rfl))
+  | .ok _, .error _ => isFalse (fun h => by cases h)
+  | .error _, .ok _ => isFalse (fun h => by cases h)
 
 /-- `mapM` in `Except` succeeds with `bs` iff every element succeeds with the corresponding result -/
 theorem mapM_ok_iff {α β} (f : α → Except Err β) (l : List α) (bs : List β) :
@@ -277,5 +284,94 @@ theorem pyInt_intCast (n : Int) : pyInt (n : Rat) = n := by
   split
   · exact Rat.floor_intCast n
   · exact Rat.ceil_intCast n
+
+/-! ### model-specific helpers -/
+
+theorem bounds_timeInterval (s e : Rat) (h : s ≤ e) :
+    (Geom.timeInterval s e).bounds = some ⟨s, 0, e, MAXF⟩ := by
+  simp only [Geom.bounds, Geom.boundPts, ptsBounds, List.foldl, MAXF]
+  have h1 : min s e = s := by grind
+  have h2 : max s e = e := by grind
+  have h3 : min (0 : Rat) 5000000 = 0 := by decide +kernel
+  have h4 : max (0 : Rat) 5000000 = 5000000 := by decide +kernel
+  simp [h1, h2, h3, h4]
+
+/-- `int(t * samplerate)` of a non-negative product is its floor: the integer `n` with
+    `n ≤ t * samplerate < n + 1` -/
+theorem timeToSample_floor (sr t : Rat) (h : 0 ≤ t * sr) :
+    timeToSample sr t = (t * sr).floor ∧
+      ((timeToSample sr t : Int) : Rat) ≤ t * sr ∧ t * sr < ((timeToSample sr t : Int) : Rat) + 1 := by
+  have e : timeToSample sr t = (t * sr).floor := pyInt_of_nonneg _ h
+  refine ⟨e, ?_, ?_⟩
+  · rw [e]; exact Rat.floor_le _
+  · rw [e]
+    have := Rat.lt_floor_add_one (t * sr)
+    simpa [Rat.intCast_add] using this
+
+theorem importSeqs_ok_iff (o : LabelOpts) (adjust : Bool) (r : Rec) (seqs : List (List Segment))
+    (res : List (List Ann)) :
+    importSeqs o adjust r seqs = .ok res ↔ seqs.map (importSequence o adjust r) = res.map Except.ok := by
+  induction seqs generalizing res with
+  | nil => cases res <;> simp [importSeqs]
+  | cons s ss ih =>
+    unfold importSeqs
+    cases hs : importSequence o adjust r s with
+    | error e => cases res <;> simp [bind, Except.bind, hs]
+    | ok a =>
+      cases hss : importSeqs o adjust r ss with
+      | error e =>
+        cases res with
+        | nil => simp [bind, Except.bind]
+        | cons x xs =>
+          have : ¬ (ss.map (importSequence o adjust r) = xs.map Except.ok) := fun h => by
+            rw [(ih xs).mpr h] at hss; cases hss
+          simp [bind, Except.bind, hs, this]
+      | ok as =>
+        cases res with
+        | nil => simp [bind, Except.bind, pure, Except.pure]
+        | cons x xs =>
+          simp only [bind, Except.bind, pure, Except.pure, List.map_cons, List.cons.injEq, Except.ok.injEq, hs]
+          rw [← ih xs, hss]; simp
+
+theorem importSeqs_lengths (o : LabelOpts) (adjust : Bool) (r : Rec) (ss : List (List Segment))
+    (res : List (List Ann)) (h : ss.map (importSequence o adjust r) = res.map Except.ok) :
+    res.map List.length = ss.map List.length := by
+  induction ss generalizing res with
+  | nil => cases res <;> simp at h ⊢
+  | cons s ss ih =>
+    cases res with
+    | nil => simp at h
+    | cons x xs =>
+      simp only [List.map_cons, List.cons.injEq] at h ⊢
+      exact ⟨mapM_ok_length h.1, ih xs h.2⟩
+
+/-- the function rung falls through exactly when there is no function or it raised `ValueError` -/
+theorem fnRung_none_iff (o : LabelOpts) (label : String) :
+    fnRung o label = none ↔ o.tagFn = none ∨ ∃ f, o.tagFn = some f ∧ f label = .error .invalid := by
+  unfold fnRung
+  cases hf : o.tagFn with
+  | none => simp
+  | some f =>
+    cases hr : f label with
+    | ok r => simp [hr]
+    | error e => cases e <;> simp [hr]
+
+theorem bounds_boundingBox (s l e h : Rat) (hse : s ≤ e) (hlh : l ≤ h) :
+    (Geom.boundingBox s l e h).bounds = some ⟨s, l, e, h⟩ := by
+  simp only [Geom.bounds, Geom.boundPts, ptsBounds, List.foldl]
+  have h1 : min s e = s := by grind
+  have h2 : max s e = e := by grind
+  have h3 : min l h = l := by grind
+  have h4 : max l h = h := by grind
+  simp [h1, h2, h3, h4]
+
+theorem timeToSample_div (sr : Rat) (hsr : sr ≠ 0) (n : Int) : timeToSample sr (ratOfInt n / sr) = n := by
+  have : ratOfInt n / sr * sr = (n : Rat) := by simp only [ratOfInt]; grind
+  rw [timeToSample, this]; exact pyInt_intCast n
+
+theorem termFromKey_inj (a b : String) : termFromKey a = termFromKey b ↔ a = b := by
+  constructor
+  · intro h; exact congrArg Term.label h
+  · rintro rfl; rfl
 
 end SE.Proofs.Lemmas.Crowsetta
